@@ -13,7 +13,7 @@ T  seeded random layouts at the property's sizes (1..5 subnets, 0..1 BBMD per su
    Every B/IP frame seen on the virtual IP networks is checked for "length field = datagram length" (C09) by TLC
    (Trace_BVLL `emit` records).
 """
-import os, sys, json, random, shutil, struct, collections, concurrent.futures as cf
+import os, json, random, shutil, struct, collections, concurrent.futures as cf
 from common import Check, Hang, watchdog, bind_source
 bind_source()
 import tlc, tlaval
